@@ -25,6 +25,9 @@ ALLOWED_AXIOMS = {"propext", "Classical.choice", "Quot.sound"}
 FORBIDDEN = re.compile(r"\b(sorry|admit|native_decide|bv_decide|implemented_by)\b|^\s*axiom\s|\bunsafe\s|maxHeartbeats\s+0\b")
 
 sys.set_int_max_str_digits(0)
+import logging
+logging.getLogger("space_packet_parser").setLevel(logging.CRITICAL)
+logging.lastResort = None
 if REPO not in sys.path:
     sys.path.insert(0, REPO)
 
